@@ -127,7 +127,15 @@ def tile_vertex_grid(n, x, y, levels, planetary=False):
 
 
 def pixel_centres(n, x, y, planetary=False, npix_log2=8):
-    """(256, 256, 3) unit vectors: [i, j] = centre of tile (n+8, 256x+j, 256y+i)."""
+    """(256, 256, 3) unit vectors: [i, j] = centre of tile (n+8, 256x+j, 256y+i).
+    For the level-0 tile the grid consists of the 128x128 grids of the four level-1 tiles."""
+    if n == 0:
+        half = 2 ** (npix_log2 - 1)
+        out = np.empty((2 * half, 2 * half, 3))
+        for qy in (0, 1):
+            for qx in (0, 1):
+                out[half * qy : half * qy + half, half * qx : half * qx + half] = pixel_centres(1, qx, qy, planetary, npix_log2 - 1)
+        return out
     g, inc = tile_vertex_grid(n, x, y, npix_log2, planetary)
     return cell_centres(g, inc)
 
